@@ -116,7 +116,7 @@ theorem KS.from {α} {ext : Nat → Nat} {m0 m : Mgr} {r : Except Err α × Mgr}
 
 /-! ### `swap` -/
 
-theorem setSched_self (m : Mgr) : ({ m with sched := m.sched } : Mgr) = m := rfl
+theorem ks_setSched_self (m : Mgr) : ({ m with sched := m.sched } : Mgr) = m := rfl
 
 /-- `takeSwapOrders` changes nothing but the schedule, to a suffix — whatever it answers -/
 theorem takeSwapOrders_cases (x y : Nat) (m : Mgr) :
@@ -222,49 +222,49 @@ theorem shiftLoop_keepS (ext : Nat → Nat) (m0 : Mgr) : ∀ (f : Nat) (i e d : 
       rintro ⟨oldn, n⟩ m1 _ h1 hR1
       exact ih _ _ _ _ m1 h1 hR1
 
-theorem assert_read (b : Bool) (e : Err) : ∀ m, (M.assert b e m).2 = m := by
+theorem ks_assert_read (b : Bool) (e : Err) : ∀ m, (M.assert b e m).2 = m := by
   intro m; cases b <;> rfl
 
-theorem get_read : ∀ m, (M.get m).2 = m := fun _ => rfl
+theorem ks_get_read : ∀ m, (M.get m).2 = m := fun _ => rfl
 
-theorem ofOption_read {α} (e : Err) (o : Option α) : ∀ m, (M.ofOption e o m).2 = m := by
+theorem ks_ofOption_read {α} (e : Err) (o : Option α) : ∀ m, (M.ofOption e o m).2 = m := by
   intro m; cases o <;> rfl
 
 theorem shift_keepS (ext : Nat → Nat) (m0 m : Mgr) (h : ReorderInv ext m) (hR : RelS ext m0 m)
     (s e : Nat) : KS ext m0 (shift s e m) := by
   unfold shift
-  refine KS.bind_read M.get get_read h hR (fun mm hm => ?_)
+  refine KS.bind_read M.get ks_get_read h hR (fun mm hm => ?_)
   obtain ⟨rfl, _⟩ := M.get_ok_inv hm
-  refine KS.bind_read _ (assert_read _ _) h hR (fun _ _ => ?_)
-  refine KS.bind_read _ (assert_read _ _) h hR (fun _ _ => ?_)
+  refine KS.bind_read _ (ks_assert_read _ _) h hR (fun _ _ => ?_)
+  refine KS.bind_read _ (ks_assert_read _ _) h hR (fun _ _ => ?_)
   exact shiftLoop_keepS ext m0 _ _ _ _ _ m h hR
 
-theorem levelOfVar_read (v : String) : ∀ m, (levelOfVar v m).2 = m := by
+theorem ks_levelOfVar_read (v : String) : ∀ m, (levelOfVar v m).2 = m := by
   intro m
   unfold levelOfVar
   rw [M.bind_ok (M.get_eq m)]
-  exact ofOption_read _ _ m
+  exact ks_ofOption_read _ _ m
 
 theorem reorderVar_keepS (ext : Nat → Nat) (m0 m : Mgr) (h : ReorderInv ext m) (hR : RelS ext m0 m)
     (var : String) : KS ext m0 (reorderVar var m) := by
   unfold reorderVar
-  refine KS.bind_read M.get get_read h hR (fun mm hm => ?_)
+  refine KS.bind_read M.get ks_get_read h hR (fun mm hm => ?_)
   obtain ⟨rfl, _⟩ := M.get_ok_inv hm
   split
   · exact fun he => by cases he
-  refine KS.bind_read _ (assert_read _ _) h hR (fun _ _ => ?_)
-  refine KS.bind_read _ (levelOfVar_read var) h hR (fun level _ => ?_)
+  refine KS.bind_read _ (ks_assert_read _ _) h hR (fun _ _ => ?_)
+  refine KS.bind_read _ (ks_levelOfVar_read var) h hR (fun level _ => ?_)
   refine KS.bind (shift_keepS ext m0 m h hR _ _) ?_
   rintro _ m1 _ h1 hR1
   refine KS.bind (shift_keepS ext m0 m1 h1 hR1 _ _) ?_
   rintro sizes m2 _ h2 hR2
-  refine KS.bind_read _ (ofOption_read _ _) h2 hR2 (fun k _ => ?_)
+  refine KS.bind_read _ (ks_ofOption_read _ _) h2 hR2 (fun k _ => ?_)
   refine KS.bind (shift_keepS ext m0 m2 h2 hR2 _ _) ?_
   rintro _ m3 _ h3 hR3
-  refine KS.bind_read M.get get_read h3 hR3 (fun mm hm => ?_)
+  refine KS.bind_read M.get ks_get_read h3 hR3 (fun mm hm => ?_)
   obtain ⟨rfl, _⟩ := M.get_ok_inv hm
-  refine KS.bind_read _ (assert_read _ _) h3 hR3 (fun _ _ => ?_)
-  refine KS.bind_read _ (assert_read _ _) h3 hR3 (fun _ _ => ?_)
+  refine KS.bind_read _ (ks_assert_read _ _) h3 hR3 (fun _ _ => ?_)
+  refine KS.bind_read _ (ks_assert_read _ _) h3 hR3 (fun _ _ => ?_)
   exact KS.pure k h3 hR3
 
 theorem siftVars_keepS (ext : Nat → Nat) (m0 : Mgr) : ∀ (names : List String) (m : Mgr),
@@ -300,11 +300,11 @@ theorem applySifting_keepS (ext : Nat → Nat) (m : Mgr) (h : ReorderInv ext m) 
     · exact fun he => by cases he
     · refine KS.bind (siftVars_keepS ext m names _ hgs hRs) ?_
       rintro _ m1 _ h1 hR1
-      refine KS.bind_read M.get get_read h1 hR1 (fun mm hm => ?_)
+      refine KS.bind_read M.get ks_get_read h1 hR1 (fun mm hm => ?_)
       obtain ⟨rfl, _⟩ := M.get_ok_inv hm
-      exact KS.of_read _ (assert_read _ _) h1 hR1
+      exact KS.of_read _ (ks_assert_read _ _) h1 hR1
 
-theorem checkRoots_read : ∀ m, (checkRoots m).2 = m := by
+theorem ks_checkRoots_read : ∀ m, (checkRoots m).2 = m := by
   intro m
   unfold checkRoots
   rw [M.bind_ok (M.get_eq m)]
@@ -320,22 +320,22 @@ theorem checkRoots_read : ∀ m, (checkRoots m).2 = m := by
       · exact ih m1
   exact this _ _
 
-theorem varAtLevel_read (i : Int) : ∀ m, (varAtLevel i m).2 = m := by
+theorem ks_varAtLevel_read (i : Int) : ∀ m, (varAtLevel i m).2 = m := by
   intro m
   unfold varAtLevel
   rw [M.bind_ok (M.get_eq m)]
   split
   · rfl
-  · exact ofOption_read _ _ m
+  · exact ks_ofOption_read _ _ m
 
 theorem sortStep_keepS (ext : Nat → Nat) (m0 m : Mgr) (h : ReorderInv ext m) (hR : RelS ext m0 m)
     (order : List (String × Int)) (i : Nat) : KS ext m0 (sortStep order i m) := by
   unfold sortStep
-  refine KS.bind_read _ checkRoots_read h hR (fun _ _ => ?_)
-  refine KS.bind_read _ (varAtLevel_read _) h hR (fun x _ => ?_)
-  refine KS.bind_read _ (varAtLevel_read _) h hR (fun y _ => ?_)
-  refine KS.bind_read _ (ofOption_read _ _) h hR (fun p _ => ?_)
-  refine KS.bind_read _ (ofOption_read _ _) h hR (fun q _ => ?_)
+  refine KS.bind_read _ ks_checkRoots_read h hR (fun _ _ => ?_)
+  refine KS.bind_read _ (ks_varAtLevel_read _) h hR (fun x _ => ?_)
+  refine KS.bind_read _ (ks_varAtLevel_read _) h hR (fun y _ => ?_)
+  refine KS.bind_read _ (ks_ofOption_read _ _) h hR (fun p _ => ?_)
+  refine KS.bind_read _ (ks_ofOption_read _ _) h hR (fun q _ => ?_)
   split
   · refine KS.bind ((swap_given_keepS ext m h _ _).from hR) ?_
     rintro _ m1 _ h1 hR1
@@ -386,11 +386,11 @@ theorem reorder_keepS (ext : Nat → Nat) (m : Mgr) (h : ReorderInv ext m)
 theorem pairStep_keepS (ext : Nat → Nat) (m0 m : Mgr) (h : ReorderInv ext m) (hR : RelS ext m0 m)
     (x y : String) : KS ext m0 (pairStep x y m) := by
   unfold pairStep
-  refine KS.bind_read _ (levelOfVar_read x) h hR (fun jx _ => ?_)
-  refine KS.bind_read _ (levelOfVar_read y) h hR (fun jy _ => ?_)
+  refine KS.bind_read _ (ks_levelOfVar_read x) h hR (fun jx _ => ?_)
+  refine KS.bind_read _ (ks_levelOfVar_read y) h hR (fun jy _ => ?_)
   simp only
   generalize (if jx ≤ jy then jy - jx else jx - jy) = k
-  refine KS.bind_read _ (assert_read _ _) h hR (fun _ _ => ?_)
+  refine KS.bind_read _ (ks_assert_read _ _) h hR (fun _ _ => ?_)
   by_cases hk : k ≠ 1
   · simp only [if_pos hk]
     by_cases hgt : jx > jy
